@@ -33,6 +33,7 @@ func (e *Engine) LoadAllSpecs(specDir string) error {
 	for k := range ss.Frozen {
 		e.Frozen[k] = true
 	}
+	e.GlobalFacts = append(e.GlobalFacts, ss.GlobalFacts...)
 	e.SpecFiles = ss.Files
 	return nil
 }
